@@ -222,6 +222,31 @@ def sweep(run, pid):
                     run.count(("two-entity-chain", pi, QG.canonical(cnd)))
                     stats["two_entity_chain_cases"] += 1
                     judge(run, pid, proj, text, q, res, stats, mism)
+            # --- three, four and five kinds in one FROM list (products of a few hundred combinations): every
+            #     combination that satisfies the condition exactly once, whatever the number of FROM items
+            smallk = sorted([k for k in proj.by_kind if 1 <= len(proj.by_kind.get(k, [])) <= 4 and k not in ("File", "file")], key=lambda k: (len(proj.by_kind[k]), k))
+            for nk in (3, 4, 5):
+                if len(smallk) < nk:
+                    continue
+                for rep in range(1 if quick else 3):
+                    ks = rng.sample(smallk[:12], nk)
+                    size = 1
+                    for k in ks:
+                        size *= len(proj.by_kind[k])
+                    if size > E.MAX_TUPLES:
+                        continue
+                    als = ["e%d" % i for i in range(nk)]
+                    fi = list(zip(ks, als))
+                    name_atom = lambda i: ("atom", (QG.ident(als[i]), QG.sym("."), QG.ident("toString"), QG.sym("("), QG.sym(")"), QG.sym("!="), QG.strlit("nothing prints like this")))
+                    first = QG.accessor_atom(rng, als[0], ks[0], proj.values) if ks[0] in QG.STRING_ACC else name_atom(0)
+                    last = QG.accessor_atom(rng, als[-1], ks[-1], proj.values) if ks[-1] in QG.STRING_ACC else name_atom(nk - 1)
+                    for cnd in (None, first, last, QG.mk("and", first, name_atom(nk - 1)), QG.mk("or", last, QG.mk("not", name_atom(1)))):
+                        q = make_query(fi, cnd, als[rng.randrange(nk)])
+                        text = QG.plain(q)
+                        res = E.engine_case(proj, d, text, q)
+                        run.count(("many-kinds", nk, text))
+                        stats["from_%d_kinds_cases" % nk] += 1
+                        judge(run, pid, proj, text, q, res, stats, mism)
             # --- predicate calls: body shapes x call contexts
             for q in predicate_cases(rng, proj, k1, limit=(120 if quick else None)):
                 text = QG.plain(q)
